@@ -94,7 +94,7 @@ func repairNonFailing(tree *m.Node, u *Universe) int {
 
 func genTrySplit(t *rapid.T, tree *m.Node, always []string) (avail []string) {
 	names := tree.VarNames()
-	mode := pickW(t, "availmode", 6, 1, 1)
+	mode := pickW(t, "availmode", 10, 1, 1)
 	for _, n := range names {
 		forced := false
 		for _, a := range always {
@@ -110,10 +110,15 @@ func genTrySplit(t *rapid.T, tree *m.Node, always []string) (avail []string) {
 			avail = append(avail, n)
 		case 2: // nothing available
 		default:
-			if rapid.IntRange(0, 2).Draw(t, "avail_"+n) != 0 {
+			if rapid.Bool().Draw(t, "avail_"+n) {
 				avail = append(avail, n)
 			}
 		}
+	}
+	// the split mode promises at least one unavailable variable when there is one to choose
+	if mode == 0 && len(avail) > 0 && len(avail)+len(always) == len(names) {
+		i := rapid.IntRange(0, len(avail)-1).Draw(t, "force_unavail")
+		avail = append(avail[:i:i], avail[i+1:]...)
 	}
 	return
 }
@@ -122,7 +127,7 @@ func genC05(t *rapid.T) C05Case {
 	g := &G{t: t, GenCfg: GenCfg{
 		Depth:    rapid.IntRange(2, depthMax(6, 8)).Draw(t, "depth"),
 		MaxArity: rapid.IntRange(2, arityMax(5, 8)).Draw(t, "maxarity"),
-		Custom:   true, Consts: true, Aliases: true, BoolW: 8,
+		Custom:   true, Consts: true, Aliases: true, BoolW: 8, VarW: 14,
 	}}
 	tree := wrapRoot(g.Expr(rootTy(t), g.Depth))
 	fixEmptyLists(tree)
